@@ -115,6 +115,24 @@ CHECKS = {
              "fencing checked by the harness.",
         design="6/C13", note="str()/file I/O are CPython's.",
         technique="Coq proof + exact-text correspondence"),
+    "C07": dict(
+        text="Theorems: strict get = the component-wise fold of the statement with the first failing component's error "
+             "class; relax=True returns None exactly where strict raises and never raises (true after fix: e36f5bb; D5); "
+             "root-component handling strict vs relaxed; the names down to a node and the Walker-spelled relative path "
+             "resolve to it under sibling-unique ordinary names. String-level split/join stays visible (unproved); the "
+             "collision class is known finding KF-C07-2. Tie: trees <= 4 nodes x name pools with metacharacters x paths "
+             "<= 3 components x ignorecase/relax/separator/pathattr, round trips for every node pair.",
+        design="6/C07, 7 (D5, D12)", note="ASCII names when ignorecase; str(getattr) shipped by Python.",
+        technique="Coq proof (fold, relax-vs-strict simulation, round trips) + correspondence + known-finding class"),
+    "C08": dict(
+        text="Theorems: the compiled regex (table/prefix/anchor extracted from /repo) matches iff the declarative "
+             "wildcard relation; cache invariant and history independence for the extracted key (pattern, ignorecase) "
+             "incl. eviction; refutation witness for 'strict = relaxed or raises' (KF-C08-1). The denotation clauses "
+             "(set equality with den, pre-order, no duplicates, agreement with get) are evaluated in Coq on observed "
+             "results. Tie: patterns over names/wildcards/**/../. on trees <= 4 nodes, glob vs get, 60-call cache "
+             "histories across _MAXCACHE each compared with cold-cache runs.",
+        design="6/C08, 7 (D6)", note="partial: relaxed-denotation theorem not proved in Coq (C08_relaxed_den_full visible).",
+        technique="Coq proof (matcher, cache invariant) + refutation + correspondence with denotational spec evaluated in Coq"),
 }
 
 NOT_YET = "check not built yet in this round (work in progress; see DESIGN.md section 6 for the plan)"
